@@ -214,7 +214,8 @@ def run_history(rec, case):
                         policy='random', seed=rng.randrange(1 << 30),
                         yield_prob=rng.choice([0.0, 0.3]),
                         ws_close_mode=rng.choice(['none', 'raise']),
-                        ws_read_timeout=rng.random() < 0.3)
+                        ws_read_timeout=rng.random() < 0.3,
+                        async_handlers_coro=rng.random() < 0.7)
     R = hist.Runner(sim)
 
     def V(key, msg):
